@@ -349,6 +349,17 @@ example : Sema.Gen.FactsC10.startId = entry ∧ entry < Sema.Gen.FactsC10.firstP
 /-- `IndexVamana.Search` skips the entry node before it tests the limit, as `search` does -/
 example : Sema.Gen.FactsC10.searchCuts = ["skipEntry", "limitCut"] := by decide
 
+/-- `C03_safe_shard` rests on `C10.pstep` / `changeOf`: only a missing point is withheld from the indices, the
+dispatcher asks `getOperation` for every schema key with both documents and skips only on `opSkip`
+(the same facts are pinned, one by one, in C10/Props.lean) -/
+example : Sema.Gen.FactsC10.insertSkips = [] ∧
+    Sema.Gen.FactsC10.updateSkips = ["err == pointstore.ErrPointDoesNotExist"] ∧
+    Sema.Gen.FactsC10.deleteSkips = ["err == pointstore.ErrPointDoesNotExist"] ∧
+    Sema.Gen.FactsC10.updateChange = ["NodeId", "PreviousData", "NewData"] ∧
+    Sema.Gen.FactsC10.dispatchRange = "propName of im.indexSchema" ∧
+    Sema.Gen.FactsC10.dispatchOperationArgs = ["dec", "propName", "change.PreviousData", "change.NewData"] ∧
+    Sema.Gen.FactsC10.dispatchSkips = ["op == opSkip"] := by decide
+
 /-! ### non-vacuity: the hypotheses of the theorems hold on concrete non-trivial states -/
 
 /-- build distances of the examples: |a − b| on the ids, alpha = 2 -/
